@@ -203,6 +203,18 @@ theorem handler_null_side_compares_raw (a b : ArgIn K) (rt atl : K)
     · simp only [Bool.not_eq_true] at hb
       simp [h, hb]
 
+/-- `numpy.allclose` on quantities is `all(numpy.isclose(...))` on the same converted numbers:
+    the two handlers cannot disagree -/
+theorem handler_allclose_is_all_isclose (a b : ArgIn K) (rt atl : K) :
+    allcloseHandler a b rt atl = (iscloseHandler a b rt atl).map (fun bs => bs.all id) := by
+  unfold allcloseHandler iscloseHandler npAllclose
+  cases arrayCompHelper a b with
+  | error e => rfl
+  | ok r =>
+    obtain ⟨x, y, _⟩ := r
+    simp only
+    cases npIsclose rt atl x y <;> rfl
+
 end handlers
 
 /-- `numpy.allclose(1 [dimensionless], 1 percent)` is `True` and
